@@ -767,7 +767,9 @@ fn pick_next<M: AsRef<[Machine]>>(
     if let Some(a) = act {
         sq.push_sim(a.clone());
     }
-    pick_next(sq, client, server, network, current_time)
+    // the action took effect at `target` (it may have changed the blocking
+    // state), so whatever it releases must not be picked before that time
+    pick_next(sq, client, server, network, target)
 }
 
 fn do_internal_timer<M: AsRef<[Machine]>>(
